@@ -259,6 +259,16 @@ def run_case(case):
                 rec = data[8:8 + known]
                 recs.append(rec + rnd.randbytes(st - known))
             payload = R.c0(sub, st, recs)
+            if rnd.random() < 0.2:
+                # non-repeating data of a later protocol version in front of the records:
+                # rejected, or the records read from behind it - never from inside it
+                payload = R.c0(sub, st, recs, normal=rnd.randbytes(rnd.choice([1, 2, 8, 9, st])))
+                obs["normal_data_before_records"] = obs.get("normal_data_before_records", 0) + 1
+                d = judge(5, 0xC0, payload, {0x21: "at5.zone_status", 0x23: "at5.ac_status10",
+                                             0x33: "at5.timer_status"}[sub], viol, obs)
+                dec += d
+                n += 1
+                continue
             if cnt > 0 and decode(5, 0xC0, payload)[0] is None:
                 viol.append({"mechanism": "announced-stride-not-honoured:at5." + {
                     0x21: "zone_status", 0x23: "ac_status", 0x33: "timer_status"}[sub],
